@@ -283,6 +283,7 @@ def c03_6(ctx, ss):
     ff, flow = fn(ss, DEC, ACC)
     WORK = "self.list_charge_conjugate_decays()"
     NAMES = canon("[get_decay_mother_name(__elem__(self._parsed_decays)) for tree in self._parsed_decays]")
+    NAMES_M = "self.list_decay_mother_names()"          # the public query that returns exactly that list (C01.8 decides it)
     # the main loop: the one that looks each CDecay name up
     # (role: the loop that collects the trees which are deep-copied afterwards)
     coll = _collected(ff, flow)
@@ -303,8 +304,9 @@ def c03_6(ctx, ss):
         ifs = W.generators[0].ifs
         # `n not in <Decay mothers>`, or `n not in <the CDecay names that are Decay mothers>` (the same for a CDecay name n)
         DUP = canon(f"[__elem__({WORK}) for n in {WORK} if __elem__({WORK}) in {NAMES}]")
+        DUP_M = canon(f"[__elem__({WORK}) for n in {WORK} if __elem__({WORK}) in {NAMES_M}]")
         ok = len(ifs) == 1 and isinstance(ifs[0], ast.Compare) and isinstance(ifs[0].ops[0], ast.NotIn) and txt(ifs[0].left) == f"__elem__({WORK})" \
-            and txt(ifs[0].comparators[0]) in (NAMES, DUP)
+            and txt(ifs[0].comparators[0]) in (NAMES, DUP, NAMES_M, DUP_M)
         where_ = main
     elif txt(W) == WORK:
         removes = [c for c in pf.calls_in(ff.node) if isinstance(c.func, ast.Attribute) and c.func.attr == "remove" and txt(flow.expand(c.func.value)) == WORK]
@@ -316,7 +318,7 @@ def c03_6(ctx, ss):
                 comp = a_.args[0]
                 g = comp.generators[0]
                 if len(comp.generators) == 1 and txt(g.iter) == WORK and txt(comp.elt) == f"__elem__({WORK})" and len(g.ifs) == 1 and isinstance(g.ifs[0], ast.Compare) \
-                        and isinstance(g.ifs[0].ops[0], ast.In) and txt(g.ifs[0].left) == f"__elem__({WORK})" and txt(g.ifs[0].comparators[0]) == NAMES:
+                        and isinstance(g.ifs[0].ops[0], ast.In) and txt(g.ifs[0].left) == f"__elem__({WORK})" and txt(g.ifs[0].comparators[0]) in (NAMES, NAMES_M):
                     lps = enclosing(ff, c, (ast.For,))
                     conds = [cd for cd in guards.path_conditions(ff.node, stmt_of(ff, c), stop_at=lps[0] if lps else None) if cd[0] == "if"]
                     if lps and not conds and flow.cfg.dominates(flow.cfg.node_of(lps[0]), flow.cfg.node_of(main)):
@@ -407,6 +409,17 @@ def c03_8(ctx, ss):
         conds = [(txt(e), pol) for kind, e, pol in guards.path_conditions(lps[0] if lps else ff.node, stmt_of(ff, c)) if kind == "if"]
         tv = txt(lps[0].target) if lps else "?"
         ok = conds in ([], [(f"_is_not_self_conj({tv})", True)]) and not any(isinstance(x, (ast.Break, ast.Continue)) for x in ast.walk(lps[0])) if lps else False
+        if not ok and lps and len(conds) == 1 and conds[0][1] and conds[0][0].isidentifier():
+            # the gate written out in place (a helper of another name, inlined by the normal form): a flag local that is False
+            # exactly when the copy's mother is a self-conjugate particle of the database, True otherwise
+            flag = conds[0][0]
+            fdefs = [d for d in flow.defs if d.name == flag and d.kind == "assign" and d.value is not None]
+            falses = [d for d in fdefs if isinstance(d.value, ast.Constant) and d.value.value is False]
+            trues = [d for d in fdefs if isinstance(d.value, ast.Constant) and d.value.value is True]
+            if len(falses) == 1 and trues and len(falses) + len(trues) == len(fdefs):
+                c2 = [(txt(flow.expand(e, keep={tv})), pol) for kind, e, pol in guards.path_conditions(lps[0], falses[0].stmt, stop_at=lps[0]) if kind == "if"]
+                ok = len(c2) == 1 and c2[0][1] and c2[0][0].startswith("Particle.from_evtgen_name(") and c2[0][0].endswith(".is_self_conjugate") \
+                    and f"{tv}.children[0].children[0].value" in c2[0][0] and not any(isinstance(x, (ast.Break, ast.Continue)) for x in ast.walk(lps[0]))
         (ctx.holds if ok else ctx.violation)("C03.8", ckey(ff, None, "visit-gate"), where(ff, c),
                                               "every copy is conjugated unless its mother is self-conjugate" if ok else f"conjugation of a copy is gated by {conds}")
     mf = pf.module_facts(ss, DEC)
